@@ -239,7 +239,11 @@ class AbstractDateTime(AnyAtomicType):
         raise NotImplementedError
 
     def __hash__(self) -> int:
-        return hash((self._dt, self._year))
+        # equal values (the same instant in different timezones) have the same hash
+        try:
+            return hash(self.todelta())
+        except OverflowError:
+            return hash((self._dt.second, self._dt.microsecond))
 
     def __eq__(self, other: object) -> bool:
         return self._compare(other, operator.eq)
